@@ -43,6 +43,7 @@ func init() {
 			"String-sourced contexts (interpreter only; one hash-selected context per (location, configuration) at rate 3/14, thorough 5/14): the load is issued by code evaluated from a string, []byte or reader under a stream name drawn by the PRNG from the layout's label pool (no name, a word, a relative path through directories that exist inside or outside the root spelled relative to the root, relative to the working directory or absolutely, the path of a real file of another directory, '..'-laden and unclean spellings, a directory reached through a link, a trailing slash, a directory that does not exist, a URL, a random path of 1-4 components), entered by the host through LoadString | LoadStringContext | Load | LoadContext or by lisp through load-string | load-bytes with and without :name (plain, inside a let, a lambda, a map, a string inside a string), at top level or from a running file in a loader directory, and loading the location under test itself or a loader file which then loads it; string-sourced code has no loading file, so the model reads its locations like top-level ones, the library must be handed the empty context location for its calls, and the same load repeated under a control name must evaluate the same files in the same order. " +
 			"An unconfined RelativeFileSystemLibrary{} is exercised in the loader, hop, sequence and string-sourced contexts for the relative-resolution clause (and the independence from the stream name) only. " +
 			"Histories through one library value (one per case, after the static loads; kind rotating with the chunk): 2-4 rounds of loads through the SAME library value and the same runtime, between which the harness reassigns RootDir / FSLibrary.FS (sibling, sub-directory, parent, other directory, \"\", back to the first; absolute, trailing slash, relative to the working directory, through a link), changes the working directory under a relative root, re-points a symbolic link the root is or passes through (directly, through a second link, with a sub-directory behind it), or changes the file tree (a file replaced by a link to another file, a directory - for RootDir also the root itself or an ancestor - swapped for a link to another directory, a link inside the root re-pointed); after every change the model is re-evaluated for the CURRENT configuration (root = what the current spelling resolves to in the current tree from the current working directory) and judges every load as in the static case; locations of a round: every regular file spelled absolutely, relative to the working directory and relative to the directory of every loading file, plus a quarter of the chunk's locations; contexts: top level, the loader files still reached without a link (LoadSource and interpreter), one regular file per real directory as loading file of a LoadSource call; finding keys end in @after:<kind of the last change>. " +
+			"Near-equal-name layouts (appended after the layouts above: 3, thorough 12, of 16 chunks each): the root path has 1, 2, 3 components in turn, drawn from a pool of realistic directory names; next to the root directory and next to one PRNG-chosen ancestor stands one twin directory per applicable class of near-equal name (ASCII letter case; non-ASCII letter case of the same encoded length; letter case across encoded lengths such as k / KELVIN SIGN and s / LONG S; full and Turkic case mappings such as ss / sharp s and i / dotless i; NFC vs NFD; compatibility forms such as fullwidth letters; trailing dot or space; ignorable code points; the 8.3 alias; prefix / suffix), the member of the class drawn by the PRNG, holding a mirror of the root's file names below the same tail of components; links inside the root lead to twins (relative and absolute targets, directory and file), the working directory is the sandbox, the root, a twin, the root's parent or a sub-directory, one sub-directory and one file inside the root have a twin too, and the location list additionally spells every lisp file absolutely and relative to every start directory; RootDir \"/\" is exercised there as the boundary of the root depth (model root = top of the file system). The sandbox file system is probed per case to distinguish names by letter case, normalisation form and a trailing dot; if it does not, the near cases count themselves not applicable. Everything else (configurations, contexts, entry points, histories, oracle) is as for the other layouts. " +
 			"A recording wrapper around the interpreter's library observes (loading context, request, true location) of every library call: the context of each nested call must be the true location the library returned for the file doing the loading. " +
 			"Driver: the real `elps run [--root-dir]` binary over ~600 (thorough 4000) locations x 8 invocations (two of them a file loading every location as the last element of (map 'list load-file '(file-of-another-directory LOCATION)), one a file loading every location through (load-string '(load-file LOCATION)' :name NAME) under a drawn and under a control stream name), and one strace'd worker (no successful open of an outside file between the sentinels of a load). " +
 			"A coverage key is lib|rootspec|context|entry|location-shape|outcome where location-shape = (form flags, #components bucket, '..' present, links followed: kind x position x inside/outside, model errno, final inside/outside, for both readings when they differ); loads whose location is a plain miss (ENOENT, no link, no '..') are counted as trivial and give no key.",
@@ -87,13 +88,17 @@ type c20Tier struct {
 	hopRate     int // hop contexts: one per (location, interpreter configuration) at hopRate/7
 	seqRate     int // sequence contexts: one per (location, interpreter configuration) at seqRate/7
 	strRate     int // string-sourced contexts: one per (location, interpreter configuration) at strRate/14
+	// near layouts (appended after the layouts*chunks cases above): the root's
+	// path components have near-equal twins outside the root
+	nearLayouts int
+	nearChunks  int
 }
 
 func c20TierOf(tier string) c20Tier {
 	if tier == "thorough" {
-		return c20Tier{layouts: 32, chunks: 96, depth: 3, deepLayouts: 6, nrand: 6000, rate: 4, hopRate: 5, seqRate: 4, strRate: 5}
+		return c20Tier{layouts: 32, chunks: 96, depth: 3, deepLayouts: 6, nrand: 6000, rate: 4, hopRate: 5, seqRate: 4, strRate: 5, nearLayouts: 12, nearChunks: 16}
 	}
-	return c20Tier{layouts: 8, chunks: 48, depth: 3, deepLayouts: 0, nrand: 1500, rate: 2, hopRate: 3, seqRate: 2, strRate: 3}
+	return c20Tier{layouts: 8, chunks: 48, depth: 3, deepLayouts: 0, nrand: 1500, rate: 2, hopRate: 3, seqRate: 2, strRate: 3, nearLayouts: 3, nearChunks: 16}
 }
 
 func c20Cases(tier string) int {
@@ -104,7 +109,21 @@ func c20Cases(tier string) int {
 		return 0 // debugging aid: only the driver phases (the run is then inconclusive by the coverage floor)
 	}
 	t := c20TierOf(tier)
-	return t.layouts * t.chunks
+	return t.layouts*t.chunks + t.nearLayouts*t.nearChunks
+}
+
+// c20NearLayoutBase is the layout index of the first near layout (layout
+// indices select the PRNG streams of a layout and its location list).
+const c20NearLayoutBase = 1000
+
+// c20CaseOf maps a case index to (layout index, chunk, chunks of that layout):
+// the layouts*chunks cases of the catalogue and generated layouts first, then
+// the near layouts.
+func c20CaseOf(tp c20Tier, idx int) (layoutIdx, chunk, chunks int) {
+	if n := tp.layouts * tp.chunks; idx >= n {
+		return c20NearLayoutBase + (idx-n)/tp.nearChunks, (idx - n) % tp.nearChunks, tp.nearChunks
+	}
+	return idx / tp.chunks, idx % tp.chunks, tp.chunks
 }
 
 // ---------------------------------------------------------------------------
@@ -155,7 +174,11 @@ type c20Lib struct {
 	// it, so only the last clause of the property is judged on it (relative
 	// locations resolve against the directory of the loading file): it is
 	// exercised through the interpreter in loader and hop contexts only.
-	noRoot  bool
+	noRoot bool
+	// topRoot: RelativeFileSystemLibrary{RootDir: "/"} - the boundary value of
+	// the root-depth dimension (near layouts): the root is the top of the file
+	// system, every file lies inside it.
+	topRoot bool
 	fsRoot  string // absolute spelled directory an FS library is rooted at
 	rec     *c20RecFS
 	lispToo bool // also exercised through the interpreter entry points
@@ -209,6 +232,10 @@ func c20Libs(l *sandbox.Layout) []*c20Lib {
 	}
 	libs = append(libs, &c20Lib{kind: "relfs-noroot", family: "relfs-noroot", spec: "none", noRoot: true,
 		lib: &lisp.RelativeFileSystemLibrary{}, lispToo: true})
+	if l.Near {
+		libs = append(libs, &c20Lib{kind: "relfs", family: "relfs-rootdir-is-slash", spec: "fs-top", topRoot: true,
+			lib: &lisp.RelativeFileSystemLibrary{RootDir: "/"}, lispToo: true})
+	}
 	absRoot := l.Root.Path()
 	libs = append(libs, &c20Lib{kind: "mapfs", family: "mapfs", spec: "mem", isFS: true, inMem: true, fsRoot: absRoot,
 		lib: &lisp.FSLibrary{FS: l.Tree.MapFS(l.Root, true)}, lispToo: true})
@@ -246,7 +273,7 @@ func c20Libs(l *sandbox.Layout) []*c20Lib {
 // rootOf is the directory the configuration confines loads to: the layout's
 // root, or the top of the file system for the unconfined configuration.
 func (lb *c20Lib) rootOf(l *sandbox.Layout) *fsmodel.Node {
-	if lb.noRoot {
+	if lb.noRoot || lb.topRoot {
 		return l.Tree.Top
 	}
 	return l.Root
@@ -506,11 +533,20 @@ func c20Oracle(l *sandbox.Layout, lb *c20Lib, ld *sandbox.Loader, loc string) c2
 // c20Shape names the way a served file lies outside the allowed set.
 func c20Shape(l *sandbox.Layout, lb *c20Lib, ex c20Expect, served *fsmodel.Node, loc string) string {
 	root := lb.rootOf(l)
-	if lb.noRoot {
+	if lb.noRoot || lb.topRoot {
 		return "wrong-file"
 	}
 	if served != nil && served.Under(root) {
-		return "wrong-file-inside-root"
+		return "wrong-file-inside-root" + c20NearInside(ex, served)
+	}
+	if served != nil && (lb.family != "dirfs" || c20JudgeBareDirFS) {
+		// the class of the input by construction: the served file lies below a
+		// directory whose path is the root's except for near-equal components
+		// (a bare os.DirFS gets there through links only, which is not judged:
+		// its escapes keep their symlink-* shapes)
+		if cls, pos := c20NearOutside(root, served); cls != "" {
+			return "near-equal-name-outside:" + cls + ":" + pos
+		}
 	}
 	for _, r := range []fsmodel.Res{ex.lex, ex.phy} {
 		for i, ls := range r.Links {
@@ -681,6 +717,9 @@ type c20Sandbox struct {
 // layout: every fourth layout is generated, and all are once the hand-written
 // variants are used up.
 func c20Variant(layoutIdx int) int {
+	if layoutIdx >= c20NearLayoutBase {
+		return sandbox.NearBase + layoutIdx - c20NearLayoutBase
+	}
 	f := layoutIdx - layoutIdx/4
 	if layoutIdx%4 == 3 || f >= sandbox.NFixed {
 		return sandbox.NFixed + layoutIdx
@@ -698,6 +737,13 @@ func c20Open(rngLayout, rngLocs *fw.RNG, layoutIdx int, tp c20Tier) (*c20Sandbox
 		os.RemoveAll(base)
 	}
 	l := sandbox.Build(base, c20Variant(layoutIdx), rngLayout)
+	if l.Near {
+		if why := c20NameInsensitive(base); why != "" {
+			cleanup()
+			c20NearFSNote = why
+			return nil, nil, errC20NearNotApplicable
+		}
+	}
 	if err := l.Tree.Materialize(); err != nil {
 		cleanup()
 		return nil, nil, err
@@ -728,8 +774,13 @@ func c20Run(w *fw.W, idx int) {
 		return
 	}
 	tp := c20TierOf(w.Tier)
-	layoutIdx, chunk := idx/tp.chunks, idx%tp.chunks
+	layoutIdx, chunk, chunks := c20CaseOf(tp, idx)
 	sb, done, err := c20Open(w.RNG(layoutIdx, "layout"), w.RNG(layoutIdx, "locs"), layoutIdx, tp)
+	if err == errC20NearNotApplicable {
+		w.Rec.Count("nearname_cases_not_applicable", 1)
+		w.SetAdd("nearname_sandbox_fs", "not applicable: "+c20NearFSNote)
+		return
+	}
 	if err != nil {
 		w.Inconclusive("sandbox setup failed: " + err.Error())
 		return
@@ -750,8 +801,11 @@ func c20Run(w *fw.W, idx int) {
 	}
 	// replay prints the layout and the violations; C20_TRACE=1 adds one line per load
 	ck := &c20Checker{w: w, rec: w.Rec, st: st, l: l, verbose: w.Verbose && os.Getenv("C20_TRACE") != ""}
+	if l.Near {
+		c20NearEvidence(w, l)
+	}
 	var strRNG *fw.RNG
-	for i := chunk; i < len(sb.locs); i += tp.chunks {
+	for i := chunk; i < len(sb.locs); i += chunks {
 		loc := sb.locs[i]
 		ck.validateModel(loc)
 		for _, lb := range sb.libs {
@@ -819,7 +873,7 @@ func c20Run(w *fw.W, idx int) {
 	// a change of the configuration / the environment / the tree, loads again.
 	// It runs last because it mutates the sandbox.
 	var chunkLocs []string
-	for i := chunk; i < len(sb.locs); i += tp.chunks {
+	for i := chunk; i < len(sb.locs); i += chunks {
 		chunkLocs = append(chunkLocs, sb.locs[i])
 	}
 	c20RunHistory(w, st, sb, idx, layoutIdx, chunk, chunkLocs, ck.verbose)
@@ -901,7 +955,7 @@ func (ck *c20Checker) describe(lb *c20Lib, ld *sandbox.Loader, entry, loc string
 	if ck.histDesc != nil {
 		sb.WriteString(ck.histDesc())
 	}
-	fmt.Fprintf(&sb, "layout   : %s\nsandbox  : %s (cwd %s)\nroot     : %s (real)\nlibrary  : %s", ck.l.Name, ck.l.Tree.BasePath, ck.l.Cwd.Path(), c20RootName(ck.l.Root), lb.label)
+	fmt.Fprintf(&sb, "layout   : %s\nsandbox  : %s (cwd %s)\nroot     : %s (real)\nlibrary  : %s", ck.l.Name, ck.l.Tree.BasePath, ck.l.Cwd.Path(), c20RootName(lb.rootOf(ck.l)), lb.label)
 	if lb.isFS {
 		fmt.Fprintf(&sb, " rooted at %s", lb.fsRoot)
 	} else {
@@ -936,7 +990,7 @@ func (ck *c20Checker) describe(lb *c20Lib, ld *sandbox.Loader, entry, loc string
 		} else {
 			fmt.Fprintf(&sb, "%s", r.Node.Path())
 			if r.Node.Kind == fsmodel.File {
-				if r.Node.Under(ck.l.Root) {
+				if r.Node.Under(lb.rootOf(ck.l)) {
 					sb.WriteString(" (file inside root)")
 				} else {
 					sb.WriteString(" (file OUTSIDE root)")
@@ -969,7 +1023,7 @@ func (ck *c20Checker) judgeServed(lb *c20Lib, ld *sandbox.Loader, entry, loc str
 	if served != nil && served.Under(root) && (ex.anyInside || ex.allowed[served]) {
 		return true
 	}
-	if lb.noRoot && served == nil {
+	if (lb.noRoot || lb.topRoot) && served == nil {
 		// an unconfined library returned bytes of a file that is not part of the
 		// sandbox: nothing in the property forbids that (histories only)
 		ck.rec.Count("unconfined_served_non_sandbox_file_not_judged", 1)
@@ -1032,6 +1086,9 @@ func (ck *c20Checker) cover(lb *c20Lib, ld *sandbox.Loader, entry, loc string, e
 		ck.classFor = ex.full + "\x00" + lb.label
 	}
 	class, trivial := ck.class, ck.trivial
+	if ck.l.Near {
+		ck.nearCover(lb, loc, ex, outcome)
+	}
 	if trivial {
 		ck.rec.Count("trivial_loads", 1)
 		return
@@ -1118,7 +1175,7 @@ func (ck *c20Checker) direct(lb *c20Lib, ld *sandbox.Loader, loc string, ex c20E
 	served := ck.l.Tree.ByContent[string(data)]
 	ok := ck.judgeServed(lb, ld, entry, loc, ex, served, "returned the bytes of")
 	if ok && ex.mustServe != nil && served != ex.mustServe {
-		ck.report(lb.family+":wrong-file-inside-root", fmt.Sprintf("%s %s: %q served %s, expected %s", lb.label, entry, loc, served.Path(), ex.mustServe.Path()),
+		ck.report(lb.family+":wrong-file-inside-root"+c20NearInside(ex, served), fmt.Sprintf("%s %s: %q served %s, expected %s", lb.label, entry, loc, served.Path(), ex.mustServe.Path()),
 			func() string { return ck.describe(lb, ld, entry, loc, ex) })
 	}
 	// trueloc must identify the served file (counted, not judged: not in the statement)
@@ -1416,7 +1473,7 @@ func (ck *c20Checker) judgeRun(lb *c20Lib, ld *sandbox.Loader, entry, loc string
 		}
 		probes = append(probes, n)
 	}
-	if ck.l.Secret != "" && !lb.noRoot && (strings.Contains(tr.Value, ck.l.Secret) || strings.Contains(tr.Stderr, ck.l.Secret)) {
+	if ck.l.Secret != "" && !lb.noRoot && !lb.topRoot && (strings.Contains(tr.Value, ck.l.Secret) || strings.Contains(tr.Stderr, ck.l.Secret)) {
 		ck.report(lb.family+":outside-content-in-error", fmt.Sprintf("%s %s: location %q: content of the non-lisp outside file appears in the result/stderr", lb.label, entry, loc),
 			func() string {
 				return ck.describe(lb, ld, entry, loc, ex) + "value: " + tr.Value + "\nstderr: " + tr.Stderr + "\n"
@@ -1449,7 +1506,7 @@ func (ck *c20Checker) judgeRun(lb *c20Lib, ld *sandbox.Loader, entry, loc string
 	}
 	rest := probes[len(chain):]
 	if len(rest) == 0 {
-		if !tr.IsErr && !lb.noRoot {
+		if !tr.IsErr && !lb.noRoot && !lb.topRoot {
 			ck.report(lb.family+":value-without-evaluation", fmt.Sprintf("%s %s: location %q returned %s without evaluating any sandbox file", lb.label, entry, loc, tr.Value), func() string { return ck.describe(lb, ld, entry, loc, ex) })
 		}
 		if ex.mustServe != nil {
@@ -1470,7 +1527,7 @@ func (ck *c20Checker) judgeRun(lb *c20Lib, ld *sandbox.Loader, entry, loc string
 		}
 	}
 	if ok && ex.mustServe != nil && rest[0] != ex.mustServe {
-		ck.report(lb.family+":wrong-file-inside-root", fmt.Sprintf("%s %s: %q evaluated %s, expected %s", lb.label, entry, loc, rest[0].Path(), ex.mustServe.Path()),
+		ck.report(lb.family+":wrong-file-inside-root"+c20NearInside(ex, rest[0]), fmt.Sprintf("%s %s: %q evaluated %s, expected %s", lb.label, entry, loc, rest[0].Path(), ex.mustServe.Path()),
 			func() string { return ck.describe(lb, ld, entry, loc, ex) })
 	}
 	if ok && !tr.IsErr && !isSeq && strings.HasPrefix(rest[0].Content, "(verif:probe '"+rest[0].Marker+") \"") && tr.Value != `"`+rest[0].Marker+`"` {
